@@ -142,53 +142,77 @@ theorem hb_of_common_token {tr : Trace} (wf : WF tr) (tok : Tok) {i j : Nat} {t 
 /-- the lockset theorem at one location -/
 theorem no_race_at (body : String → List String) (prot : Prot) {tr : Trace} (wf : WF tr) (x : String)
     (ob : ObeysAt body prot tr x) : ∀ i j, ¬ Race body tr i j x := by
-  intro i j ⟨hij, htid, hai, haj, hw, hnhb⟩
-  apply hnhb
+  intro i j ⟨hij, htid, hai, haj, hw, hnat, hnhb⟩
   cases prot with
+  | atomicOnly =>
+    -- every access is atomic, and two atomic accesses are no data race by definition
+    have atom : ∀ k, (writesAt body tr k x ∨ readsAt tr k x ∨ atomicAt tr k x) → atomicAt tr k x := by
+      intro k hk
+      rcases hk with (⟨t, h⟩ | ⟨t, o, _, _, hb⟩) | ⟨t, h⟩ | h
+      · exact absurd rfl (ob.wrAtomic _ _ h)
+      · have := ob.inBody o hb; cases this
+      · exact absurd rfl (ob.rdAtomic _ _ h)
+      · exact h
+    exact hnat ⟨atom i hai, atom j haj⟩
   | readOnly =>
-    -- no write is possible
+    -- no write and no atomic operation is possible
     exfalso
-    rcases hw with hw | hw <;> rcases hw with ⟨t, h⟩ | ⟨t, o, _, _, hb⟩
-    · exact ob.wrRO _ _ h rfl
-    · have := ob.inBody o hb; cases this
-    · exact ob.wrRO _ _ h rfl
-    · have := ob.inBody o hb; cases this
+    have noat : ∀ k, ¬ atomicAt tr k x := by
+      intro k ⟨t, h⟩; have := ob.atOnly _ _ h; cases this
+    have nowr : ∀ k, ¬ writesAt body tr k x := by
+      intro k hk
+      rcases hk with ⟨t, h⟩ | ⟨t, o, _, _, hb⟩
+      · exact ob.wrRO _ _ h rfl
+      · have := ob.inBody o hb; cases this
+    rcases hw with h | h | h | h
+    · exact nowr _ h
+    · exact nowr _ h
+    · exact noat _ h
+    · exact noat _ h
   | guarded tok =>
+    apply hnhb
     -- every access is a plain read/write event holding tok
-    have plain : ∀ k, (writesAt body tr k x ∨ readsAt tr k x) →
+    have plain : ∀ k, (writesAt body tr k x ∨ readsAt tr k x ∨ atomicAt tr k x) →
         ∃ t e, tr[k]? = some (t, e) ∧ e.rel = none ∧ heldBy tr t tok k = true := by
       intro k hk
-      rcases hk with (⟨t, h⟩ | ⟨t, o, _, _, hb⟩) | ⟨t, h⟩
+      rcases hk with (⟨t, h⟩ | ⟨t, o, _, _, hb⟩) | ⟨t, h⟩ | ⟨t, h⟩
       · exact ⟨t, _, h, rfl, ob.wrLock _ _ _ h rfl⟩
       · have := ob.inBody o hb; cases this
       · exact ⟨t, _, h, rfl, ob.rdLock _ _ _ h rfl⟩
+      · have := ob.atOnly _ _ h; cases this
     obtain ⟨t, ei, hi, hri, hti⟩ := plain i hai
     obtain ⟨u, ej, hj, _, htj⟩ := plain j haj
     have htu : t ≠ u := by
       intro h; subst h; apply htid; simp [tidAt, hi, hj]
     exact hb_of_common_token wf tok hij htu hi hj hri hti htj
   | byOnce o =>
+    apply hnhb
+    have noat : ∀ k, ¬ atomicAt tr k x := by
+      intro k ⟨t, h⟩; have := ob.atOnly _ _ h; cases this
     -- writes happen only in the first onceDo o; reads follow an own onceDo o
     have wr : ∀ k, writesAt body tr k x → ∃ t, tr[k]? = some (t, Ev.onceDo o) ∧ firstOnce tr k o := by
       intro k hk
       rcases hk with ⟨t, h⟩ | ⟨t, o', h, hf, hb⟩
       · exact absurd rfl (ob.wrOnce _ _ o h)
       · have := ob.inBody o' hb; cases this; exact ⟨t, h, hf⟩
-    have acc : ∀ k, (writesAt body tr k x ∨ readsAt tr k x) →
+    have acc : ∀ k, (writesAt body tr k x ∨ readsAt tr k x ∨ atomicAt tr k x) →
         ∃ t e k', tr[k]? = some (t, e) ∧ k' ≤ k ∧ tr[k']? = some (t, Ev.onceDo o) := by
       intro k hk
-      rcases hk with hk | ⟨t, h⟩
+      rcases hk with hk | ⟨t, h⟩ | h
       · obtain ⟨t, h, _⟩ := wr k hk; exact ⟨t, _, k, h, Nat.le_refl _, h⟩
       · obtain ⟨k', hlt, hk'⟩ := ob.rdOnce _ _ o h rfl
         exact ⟨t, _, k', h, by omega, hk'⟩
+      · exact absurd h (noat k)
     -- the write must be at i: a first onceDo at j cannot follow another onceDo o
     have hwi : writesAt body tr i x := by
-      rcases hw with hw | hw
+      rcases hw with hw | hw | hw | hw
       · exact hw
       · exfalso
         obtain ⟨u, _, hf⟩ := wr j hw
         obtain ⟨t, e, k', _, hk'i, hk'⟩ := acc i hai
         exact hf k' t (by omega) hk'
+      · exact absurd hw (noat i)
+      · exact absurd hw (noat j)
     obtain ⟨t, hi, hfi⟩ := wr i hwi
     obtain ⟨u, ej, k', hj, hk'j, hk'⟩ := acc j haj
     have htu : t ≠ u := by
